@@ -1,2 +1,427 @@
+import FoxModel.Props.C01Full
+import FoxModel.Props.C01Spec
+/-
+  Property C16 — routing a matching request allocates nothing. What is logic is proved here: the parameter buffer of a
+  pooled context is allocated with capacity `maxParams` of the tree it belongs to (tree.go allocateContext), and every
+  answer of the matcher on a reachable tree carries exactly `ParamsLen` = number of wildcards of the selected route
+  parameters, which never exceeds that capacity — so recording the parameters of a match never grows the buffer.
+  Escape analysis, sync.Pool and the allocator are runtime behaviour: measured by the `alloc` stream (AllocsPerRun).
+-/
 namespace Fox.C16
+open Fox Fox.Model Fox.Spec Fox.C02
+
+theorem first_mem {res : Res} {tsr : Bool} {f : Found} (h : first res tsr = some f) : (f.route, f.params) ∈ res := by
+  cases res with
+  | nil => cases h
+  | cons x xs =>
+    obtain ⟨r, ps⟩ := x
+    simp only [first, Option.some.injEq] at h
+    subst h; simp
+
+theorem mem_of_flt {p} {S : SufSet} {sr} (h : sr ∈ flt p S) : sr ∈ S := (List.mem_filter.mp h).1
+
+theorem len_of_specAll {S : SufSet} {path : Bytes} {r : Route} {ps : Binds}
+    (hpat : ∀ sr ∈ S, sr.1 = sr.2.pattern) (h : (r, ps) ∈ specAll S path []) : ps.length = r.psLen := by
+  obtain ⟨s, bs', hm, hps, hM⟩ := C01Spec.specAll_sound h
+  have := C01Spec.count_of_match hM
+  have hs : s = r.pattern := hpat (s, r) hm
+  subst hs
+  simp only [List.nil_append] at hps
+  rw [hps, this]; rfl
+
+theorem len_of_specHost {S : SufSet} {host path : Bytes} {r : Route} {ps : Binds}
+    (hpat : ∀ sr ∈ S, sr.1 = sr.2.pattern) (h : (r, ps) ∈ specHost S host path []) : ps.length = r.psLen := by
+  obtain ⟨s, bs', hm, hps, hM⟩ := C01Spec.specHost_sound h
+  have hn := C01Spec.matchHP_names hM
+  have hs : s = r.pattern := hpat (s, r) hm
+  subst hs
+  simp only [List.nil_append] at hps
+  have : bs'.length = (wildNames r.pattern).length := by rw [← hn, List.length_map]
+  rw [hps, this, wildNames_length]; rfl
+
+theorem pathOnlyS_len {S : SufSet} {path : Bytes} {f : Found} (hpat : ∀ sr ∈ S, sr.1 = sr.2.pattern)
+    (h : pathOnlyS S path [] = some f) : f.params.length = f.route.psLen := by
+  unfold pathOnlyS at h
+  cases h1 : first (specAll S path []) false with
+  | some g =>
+    rw [h1] at h
+    simp only [Option.orElse, Option.some.injEq] at h
+    subst h
+    exact len_of_specAll hpat (first_mem h1)
+  | none =>
+    rw [h1] at h
+    simp only [Option.orElse] at h
+    cases ha : adjust path with
+    | none => rw [ha] at h; cases h
+    | some x =>
+      obtain ⟨p', added⟩ := x
+      rw [ha] at h
+      simp only at h
+      cases added with
+      | false => exact len_of_specAll hpat (first_mem h)
+      | true =>
+        simp only [if_true] at h
+        exact len_of_specAll (fun sr hsr => hpat sr (mem_of_flt hsr)) (first_mem h)
+
+theorem hostOnlyS_len {S : SufSet} {host path : Bytes} {f : Found} (hpat : ∀ sr ∈ S, sr.1 = sr.2.pattern)
+    (h : hostOnlyS S host path [] = some f) : f.params.length = f.route.psLen := by
+  unfold hostOnlyS at h
+  cases h1 : first (specHost S host path []) false with
+  | some g =>
+    rw [h1] at h
+    simp only [Option.orElse, Option.some.injEq] at h
+    subst h
+    exact len_of_specHost hpat (first_mem h1)
+  | none =>
+    rw [h1] at h
+    simp only [Option.orElse] at h
+    cases ha : adjust path with
+    | none => rw [ha] at h; cases h
+    | some x =>
+      obtain ⟨p', added⟩ := x
+      rw [ha] at h
+      simp only at h
+      cases added with
+      | false => exact len_of_specHost hpat (first_mem h)
+      | true =>
+        simp only [if_true] at h
+        exact len_of_specHost (fun sr hsr => hpat sr (mem_of_flt hsr)) (first_mem h)
+
+theorem routeS_len {S : SufSet} {hostPort path : Bytes} {f : Found} (hpat : ∀ sr ∈ S, sr.1 = sr.2.pattern)
+    (h : routeS S hostPort path = some f) : f.params.length = f.route.psLen := by
+  unfold routeS at h
+  simp only at h
+  have hP : ∀ sr ∈ S.filter headSlash, sr.1 = sr.2.pattern := fun sr hsr => hpat sr (List.mem_filter.mp hsr).1
+  have hH : ∀ sr ∈ S.filter (fun sr => !headSlash sr), sr.1 = sr.2.pattern :=
+    fun sr hsr => hpat sr (List.mem_filter.mp hsr).1
+  split at h
+  · exact pathOnlyS_len hP h
+  · cases hh : hostOnlyS (S.filter (fun sr => !headSlash sr)) (stripHostPort hostPort) path [] with
+    | some g =>
+      rw [hh] at h
+      simp only [Option.orElse, Option.some.injEq] at h
+      subst h
+      exact hostOnlyS_len hH hh
+    | none =>
+      rw [hh] at h
+      simp only [Option.orElse] at h
+      exact pathOnlyS_len hP h
+
+/-- stored suffixes below a root are the full patterns -/
+theorem pats_of_good {t : Tree} (hg : Good t) (m : Bytes) : ∀ sr ∈ sufsOfMethod t.roots m, sr.1 = sr.2.pattern := by
+  unfold sufsOfMethod
+  cases hm : methodRoot t.roots m with
+  | none => intro sr h; simp at h
+  | some root =>
+    obtain ⟨x, hx, rfl⟩ := C01.methodRoot_mem hm
+    intro sr hsr
+    have hroot := (hg.roots x hx).wf
+    have hk : x.2.key = [] := by
+      simp only [wfRoot, Bool.and_eq_true, List.isEmpty_iff] at hroot
+      exact hroot.1.1.1
+    have hmem : sr ∈ sufsNode x.2 := by
+      rw [sufsNode_eq, sufsFrom_eq, hk]
+      apply List.mem_append_right
+      simp only [List.nil_append, List.mem_map]
+      exact ⟨sr, hsr, rfl⟩
+    exact ((hg.roots x hx).pats sr hmem).1
+
+/-- **every answer of the matcher carries exactly ParamsLen parameters**: on a reachable-state tree, for every request
+    (path without empty segment, Host without '/'), a found route comes with as many parameters as its pattern has
+    wildcards — both for direct and for trailing-slash answers (tsrParams) -/
+theorem params_len_eq_psLen {t : Tree} (hg : Good t) (m hostPort path : Bytes) (hn : noDbl path = true)
+    (hs : SLASH ∉ stripHostPort hostPort) (r : Route) (ps : Binds) (tsr : Bool)
+    (h : lookup t.roots m hostPort path = .found r ps tsr) : ps.length = r.psLen := by
+  rw [C01.lookup_eq_spec_good hg m hostPort path hn hs] at h
+  cases hr : routeS (sufsOfMethod t.roots m) hostPort path with
+  | none => rw [hr] at h; cases h
+  | some f =>
+    rw [hr] at h
+    simp only [toResult] at h
+    injection h with h1 h2 _
+    subst h1; subst h2
+    exact routeS_len (pats_of_good hg m) hr
+
+end Fox.C16
+
+namespace Fox.C16
+open Fox Fox.Model Fox.Spec Fox.C02
+
+/-! ### the tree's `maxParams` dominates the parameter count of every registered route -/
+
+theorem psLen_of_pattern {r r' : Route} (h : r.pattern = r'.pattern) : r.psLen = r'.psLen := by
+  unfold Route.psLen; rw [h]
+
+/-- simulation invariant extended with the capacity bound -/
+def Cap (t : Tree) (s : Store) : Prop := Sim t s ∧ ∀ e ∈ s, e.2.psLen ≤ t.maxParams
+
+theorem cap_new : Cap newTree [] := ⟨sim_new, by intro e h; cases h⟩
+
+theorem insert_maxParams {t t' : Tree} {m : Bytes} {r : Route} {c : InsCase} (h : t.insert m r = .ok (t', c)) :
+    t'.maxParams = max t.maxParams r.psLen := by
+  unfold Tree.insert at h
+  simp only at h
+  split at h
+  · cases h
+  · split at h
+    · cases h
+    · simp only [Except.ok.injEq, Prod.mk.injEq] at h
+      rw [← h.1]
+
+theorem update_maxParams {t t' : Tree} {m : Bytes} {r : Route} (h : t.update m r = some t') :
+    t'.maxParams = t.maxParams := by
+  unfold Tree.update at h
+  split at h
+  · cases h
+  · split at h
+    · cases h
+    · simp only [Option.some.injEq] at h; rw [← h]
+
+theorem remove_maxParams {t t' : Tree} {m : Bytes} {toks : List Tok} {old : Route} {c : RemCase}
+    (h : t.remove m toks = some (t', old, c)) : t'.maxParams = t.maxParams := by
+  unfold Tree.remove at h
+  split at h
+  · cases h
+  · split at h
+    · cases h
+    · simp only [Option.some.injEq, Prod.mk.injEq] at h; rw [← h.1]
+
+theorem truncate_maxParams (t : Tree) (ms : List Bytes) : (t.truncate ms).maxParams = t.maxParams := by
+  unfold Tree.truncate
+  split <;> rfl
+
+theorem cap_step {t : Tree} {s : Store} (op : Op) (h : Cap t s) (hv : op.valid = true) :
+    Cap (stepModel t op).1 (stepSpec s op).1 := by
+  refine ⟨(step_refines op h.1 hv).1, ?_⟩
+  cases op with
+  | handle m r =>
+    have href := handle_refines (m := m) h.1 hv
+    simp only [stepModel, stepSpec]
+    cases hi : t.insert m r with
+    | error e =>
+      rw [hi] at href
+      cases e with
+      | exist x =>
+        cases hs : s.handle m r with
+        | mk s' o =>
+          rw [hs] at href
+          cases o <;> simp only at href
+          · rw [href.1]; exact h.2
+      | conflict cs =>
+        cases hs : s.handle m r with
+        | mk s' o =>
+          rw [hs] at href
+          cases o <;> simp only at href
+          · rw [href.1]; exact h.2
+    | ok y =>
+      obtain ⟨t', c⟩ := y
+      rw [hi] at href
+      simp only
+      rw [insert_maxParams hi]
+      intro e he
+      unfold Store.handle at he
+      split at he
+      · exact Nat.le_trans (h.2 e he) (Nat.le_max_left _ _)
+      · split at he
+        · simp only [List.mem_append, List.mem_singleton] at he
+          rcases he with he | he
+          · exact Nat.le_trans (h.2 e he) (Nat.le_max_left _ _)
+          · rw [he]; exact Nat.le_max_right _ _
+        · exact Nat.le_trans (h.2 e he) (Nat.le_max_left _ _)
+  | update m r =>
+    simp only [stepModel, stepSpec]
+    cases hu : t.update m r with
+    | none =>
+      simp only
+      intro e he
+      unfold Store.update at he
+      split at he
+      · exact h.2 e he
+      · simp only [List.mem_map] at he
+        obtain ⟨x, hx, rfl⟩ := he
+        split
+        · rename_i hc
+          simp only [Bool.and_eq_true, beq_iff_eq] at hc
+          rw [psLen_of_pattern hc.2.symm]; exact h.2 x hx
+        · exact h.2 x hx
+    | some t' =>
+      simp only
+      rw [update_maxParams hu]
+      intro e he
+      unfold Store.update at he
+      split at he
+      · exact h.2 e he
+      · simp only [List.mem_map] at he
+        obtain ⟨x, hx, rfl⟩ := he
+        split
+        · rename_i hc
+          simp only [Bool.and_eq_true, beq_iff_eq] at hc
+          rw [psLen_of_pattern hc.2.symm]; exact h.2 x hx
+        · exact h.2 x hx
+  | delete m pat =>
+    simp only [stepModel, stepSpec]
+    have hsub : ∀ e ∈ (s.delete m pat).1, e ∈ s := by
+      intro e he
+      unfold Store.delete at he
+      split at he
+      · exact he
+      · exact (List.mem_filter.mp he).1
+    cases hr : t.remove m pat with
+    | none => simp only; exact fun e he => h.2 e (hsub e he)
+    | some y =>
+      obtain ⟨t', old, c⟩ := y
+      simp only
+      rw [remove_maxParams hr]
+      exact fun e he => h.2 e (hsub e he)
+  | truncate ms =>
+    simp only [stepModel, stepSpec]
+    rw [truncate_maxParams]
+    intro e he
+    unfold Store.truncate at he
+    split at he
+    · cases he
+    · exact h.2 e (List.mem_filter.mp he).1
+
+theorem cap_run : ∀ (ops : List Op) {t : Tree} {s : Store}, Cap t s → (∀ op ∈ ops, op.valid = true) →
+    Cap (runModel t ops).1 (runSpec s ops).1
+  | [], _, _, h, _ => h
+  | op :: ops, t, s, h, hv => by
+    have h1 := cap_step op h (hv op (by simp))
+    exact cap_run ops h1 (fun o ho => hv o (by simp [ho]))
+
+end Fox.C16
+
+namespace Fox.C16
+open Fox Fox.Model Fox.Spec Fox.C02
+
+theorem mem_of_specAll {S : SufSet} {path : Bytes} {r : Route} {ps : Binds}
+    (h : (r, ps) ∈ specAll S path []) : ∃ s, (s, r) ∈ S := by
+  obtain ⟨s, _, hm, _, _⟩ := C01Spec.specAll_sound h; exact ⟨s, hm⟩
+
+theorem mem_of_specHost {S : SufSet} {host path : Bytes} {r : Route} {ps : Binds}
+    (h : (r, ps) ∈ specHost S host path []) : ∃ s, (s, r) ∈ S := by
+  obtain ⟨s, _, hm, _, _⟩ := C01Spec.specHost_sound h; exact ⟨s, hm⟩
+
+theorem pathOnlyS_mem {S : SufSet} {path : Bytes} {f : Found} (h : pathOnlyS S path [] = some f) :
+    ∃ s, (s, f.route) ∈ S := by
+  unfold pathOnlyS at h
+  cases h1 : first (specAll S path []) false with
+  | some g =>
+    rw [h1] at h
+    simp only [Option.orElse, Option.some.injEq] at h
+    subst h
+    exact mem_of_specAll (first_mem h1)
+  | none =>
+    rw [h1] at h
+    simp only [Option.orElse] at h
+    cases ha : adjust path with
+    | none => rw [ha] at h; cases h
+    | some x =>
+      obtain ⟨p', added⟩ := x
+      rw [ha] at h
+      simp only at h
+      cases added with
+      | false => exact mem_of_specAll (first_mem h)
+      | true =>
+        simp only [if_true] at h
+        obtain ⟨s, hs⟩ := mem_of_specAll (first_mem h)
+        exact ⟨s, mem_of_flt hs⟩
+
+theorem hostOnlyS_mem {S : SufSet} {host path : Bytes} {f : Found} (h : hostOnlyS S host path [] = some f) :
+    ∃ s, (s, f.route) ∈ S := by
+  unfold hostOnlyS at h
+  cases h1 : first (specHost S host path []) false with
+  | some g =>
+    rw [h1] at h
+    simp only [Option.orElse, Option.some.injEq] at h
+    subst h
+    exact mem_of_specHost (first_mem h1)
+  | none =>
+    rw [h1] at h
+    simp only [Option.orElse] at h
+    cases ha : adjust path with
+    | none => rw [ha] at h; cases h
+    | some x =>
+      obtain ⟨p', added⟩ := x
+      rw [ha] at h
+      simp only at h
+      cases added with
+      | false => exact mem_of_specHost (first_mem h)
+      | true =>
+        simp only [if_true] at h
+        obtain ⟨s, hs⟩ := mem_of_specHost (first_mem h)
+        exact ⟨s, mem_of_flt hs⟩
+
+theorem routeS_mem {S : SufSet} {hostPort path : Bytes} {f : Found} (h : routeS S hostPort path = some f) :
+    ∃ s, (s, f.route) ∈ S := by
+  unfold routeS at h
+  simp only at h
+  split at h
+  · obtain ⟨s, hs⟩ := pathOnlyS_mem h; exact ⟨s, (List.mem_filter.mp hs).1⟩
+  · cases hh : hostOnlyS (S.filter (fun sr => !headSlash sr)) (stripHostPort hostPort) path [] with
+    | some g =>
+      rw [hh] at h
+      simp only [Option.orElse, Option.some.injEq] at h
+      subst h
+      obtain ⟨s, hs⟩ := hostOnlyS_mem hh; exact ⟨s, (List.mem_filter.mp hs).1⟩
+    | none =>
+      rw [hh] at h
+      simp only [Option.orElse] at h
+      obtain ⟨s, hs⟩ := pathOnlyS_mem h; exact ⟨s, (List.mem_filter.mp hs).1⟩
+
+/-- a route answered by the matcher is a registered route of that method -/
+theorem found_is_registered {t : Tree} (hg : Good t) (m hostPort path : Bytes) (hn : noDbl path = true)
+    (hs : SLASH ∉ stripHostPort hostPort) (r : Route) (ps : Binds) (tsr : Bool)
+    (h : lookup t.roots m hostPort path = .found r ps tsr) : r ∈ routesOf t m := by
+  rw [C01.lookup_eq_spec_good hg m hostPort path hn hs] at h
+  cases hr : routeS (sufsOfMethod t.roots m) hostPort path with
+  | none => rw [hr] at h; cases h
+  | some f =>
+    rw [hr] at h
+    simp only [toResult] at h
+    injection h with h1 _ _
+    subst h1
+    obtain ⟨s, hsm⟩ := routeS_mem hr
+    unfold sufsOfMethod at hsm
+    unfold routesOf
+    cases hm : methodRoot t.roots m with
+    | none => rw [hm] at hsm; simp at hsm
+    | some root =>
+      rw [hm] at hsm
+      simp only at hsm ⊢
+      obtain ⟨x, hx, rfl⟩ := C01.methodRoot_mem hm
+      have hroot := (hg.roots x hx).wf
+      have hk : x.2.key = [] := by
+        simp only [wfRoot, Bool.and_eq_true, List.isEmpty_iff] at hroot
+        exact hroot.1.1.1
+      have hmem : (s, f.route) ∈ sufsNode x.2 := by
+        rw [sufsNode_eq, sufsFrom_eq, hk]
+        apply List.mem_append_right
+        simp only [List.nil_append, List.mem_map]
+        exact ⟨(s, f.route), hsm, rfl⟩
+      rw [routesNode_eq]
+      exact List.mem_map.mpr ⟨(s, f.route), hmem, rfl⟩
+
+/-- **C16 (logic part): the parameters of every answer fit in the pre-sized buffer.** After any history, for every
+    request, the parameter list the matcher reports for the selected route (direct or trailing-slash) has exactly
+    `ParamsLen` entries and that number is at most the `maxParams` with which the tree's pooled contexts are allocated
+    (`make(Params, 0, t.maxParams)`): recording the parameters of a match never has to grow the buffer. -/
+theorem params_fit_capacity (ops : List Op) (hv : ∀ op ∈ ops, op.valid = true)
+    (m hostPort path : Bytes) (hn : noDbl path = true) (hs : SLASH ∉ stripHostPort hostPort)
+    (r : Route) (ps : Binds) (tsr : Bool)
+    (h : lookup (runModel newTree ops).1.roots m hostPort path = .found r ps tsr) :
+    ps.length = r.psLen ∧ ps.length ≤ (runModel newTree ops).1.maxParams := by
+  have hcap := cap_run ops cap_new hv
+  have hg := hcap.1.good
+  have hlen := params_len_eq_psLen hg m hostPort path hn hs r ps tsr h
+  refine ⟨hlen, ?_⟩
+  rw [hlen]
+  have hreg := found_is_registered hg m hostPort path hn hs r ps tsr h
+  have hperm := hcap.1.abs.1 m
+  have hin : r ∈ (runSpec [] ops).1.routesOf m := hperm.mem_iff.mp hreg
+  unfold Store.routesOf at hin
+  simp only [List.mem_map, List.mem_filter] at hin
+  obtain ⟨e, ⟨he, _⟩, rfl⟩ := hin
+  exact hcap.2 e he
+
 end Fox.C16
